@@ -4,6 +4,7 @@ import (
 	"bufio"
 	"bytes"
 	"fmt"
+	"github.com/yuin/goldmark/ast"
 	"os"
 	"runtime"
 	"runtime/debug"
@@ -257,6 +258,55 @@ func runC12(r *core.Run) {
 		})
 }
 
+// c12Accessors reads the parsed tree the way a node renderer does: every accessor of every node that takes the source
+// (the line and text values, the deprecated Text(source), code block language and info, closure lines, raw HTML segments).
+// Reading must not store into the source either.
+func c12Accessors(doc ast.Node, src []byte) {
+	_ = ast.Walk(doc, func(n ast.Node, entering bool) (ast.WalkStatus, error) {
+		if !entering {
+			return ast.WalkContinue, nil
+		}
+		_ = n.Text(src) //nolint:staticcheck // deprecated but public
+		if n.Type() != ast.TypeInline {
+			if ls := n.Lines(); ls != nil {
+				_ = ls.Value(src)
+				for i := 0; i < ls.Len(); i++ {
+					sg := ls.At(i)
+					_ = sg.Value(src)
+				}
+			}
+		}
+		switch x := n.(type) {
+		case *ast.Text:
+			_ = x.Value(src)
+			_ = x.Segment.Value(src)
+		case *ast.FencedCodeBlock:
+			_ = x.Language(src)
+			if x.Info != nil {
+				_ = x.Info.Value(src)
+			}
+		case *ast.HTMLBlock:
+			if x.HasClosure() {
+				_ = x.ClosureLine.Value(src)
+			}
+		case *ast.RawHTML:
+			if x.Segments != nil {
+				_ = x.Segments.Value(src)
+				for i := 0; i < x.Segments.Len(); i++ {
+					sg := x.Segments.At(i)
+					_ = sg.Value(src)
+				}
+			}
+		case *ast.AutoLink:
+			_ = x.URL(src)
+			_ = x.Label(src)
+		case *ast.CodeSpan:
+			_ = x.Text(src) //nolint:staticcheck
+		}
+		return ast.WalkContinue, nil
+	})
+}
+
 // c12Doc converts one document from a read-only page and reports write faults and changed bytes.
 func c12Doc(s *core.Sub, cv *core.Conv, cfg core.Cfg, page *roPage, word []byte) uint64 {
 	src := page.load(word)
@@ -280,6 +330,7 @@ func c12Doc(s *core.Sub, cv *core.Conv, cfg core.Cfg, page *roPage, word []byte)
 		if _, _, pan = cv.Render(src, doc); pan != nil {
 			panic(pan)
 		}
+		c12Accessors(doc, src)
 	})
 	same := bytes.Equal(src, word)
 	page.unlock()
